@@ -660,4 +660,137 @@ theorem run_merge12m (H : Crypto.Prims) (P : Prims) (L : SealLaws P) (kl : List 
         simp [upd, hd]
 
 
+/-- what `-a` makes one record of a TLS 1.3 script contribute: dummy ChangeCipherSpec (and clear-text) records verbatim,
+    protected handshake records NOTHING (their outer type is 23: `handle_tls_record` never appends the record), application
+    data as plaintext -/
+def metaOf13 (raw : Bytes) : DirEv → Bytes
+  | .clear _ => raw
+  | .ccs => raw
+  | .enc _ pt _ => pt
+  | .hs13 _ _ => []
+
+def metaStream13 (P : Prims) (L : SealLaws P) (cls : CipherClass) (ver : Bytes) : SDir → List DirEv → Bytes
+  | _, [] => []
+  | sd, e :: r => metaOf13 (evRaw P L cls ver sd e) e ++ metaStream13 P L cls ver (evNext P L cls ver sd e) r
+
+theorem step13m (H : Crypto.Prims) (P : Prims) (L : SealLaws P) (kl : List Keylog.Key) (cls : CipherClass)
+    (h13 : cls.is13 = true) (macLen : Nat) (ver : Bytes) (hv : ver.length = 2) (x : Snd) (s : Session.St Dec)
+    (hs : Ready cls macLen x s) (d : Bool) (e : DirEv) (car : List Nat)
+    (hsc : e = .ccs ∨ (∃ ms f, e = .hs13 ms f) ∨ (∃ pt f, e = .enc 23 pt f)) (hok : EvOk1 cls macLen e)
+    (hq : max x.c.seq x.s.seq + cost [e] ≤ seqLimit) :
+    let s' := Session.handleRecord (Pipeline.ops H P kl) true s ⟨evRaw P L cls ver (x.get d) e, car⟩ d
+    let x' := x.set d (evNext P L cls ver (x.get d) e)
+    Ready cls macLen x' s' ∧
+    (∀ d', dirPlain d' s'.traffic = dirPlain d' s.traffic ++
+      (if d' = d then metaOf13 (evRaw P L cls ver (x.get d) e) e else [])) ∧
+    max x'.c.seq x'.s.seq ≤ max x.c.seq x.s.seq + cost [e] := by
+  intro s' x'
+  rcases hsc with rfl | ⟨ms, f, rfl⟩ | ⟨pt, f, rfl⟩
+  · obtain ⟨a1, a2, a3, _, _, _, _⟩ := handleRecord_ccs (Pipeline.ops H P kl) true s
+      ⟨record 20 ver [1], car⟩ d (record_typ 20 ver [1] car)
+    have a7 := handle_ccs_meta (Pipeline.ops H P kl) s ⟨record 20 ver [1], car⟩ d (record_typ 20 ver [1] car)
+    have hx : x' = x := set_get x d
+    rw [hx]
+    refine ⟨hs.of_eq a1 a2 a3, ?_, by omega⟩
+    intro d'
+    show dirPlain d' (Session.handleRecord _ true s ⟨record 20 ver [1], car⟩ d).traffic = _
+    rw [a7]; exact dirPlain_push d' d s.traffic _ _ false
+  · simp only [cost] at hq
+    obtain ⟨b1, b2, b3⟩ := handleRecord_hs13 H P L kl cls h13 macLen ver hv x s hs d ms f hok (by exact hq) true car
+    rw [after_switches, Lemmas.RecLayer.sget_set, set_set] at b2 b3
+    refine ⟨b2, ?_, by simp only [cost]; exact b3⟩
+    intro d'
+    show dirPlain d' (Session.handleRecord _ true s ⟨(protect P L cls ver (x.get d) 22 (encMsgs ms) f).2, car⟩ d).traffic = _
+    rw [b1]; simp [metaOf13]
+  · simp only [cost] at hq
+    obtain ⟨c1, c2, c3, c4⟩ := handleRecord_app H P L kl cls macLen ver hv x s hs d pt f
+      (sendOk_13 cls h13 macLen pt f) (by omega) true car
+    change x'.c.seq ≤ _ at c3
+    change x'.s.seq ≤ _ at c4
+    refine ⟨c2, ?_, by simp only [cost]; exact Nat.max_le.mpr ⟨by omega, by omega⟩⟩
+    intro d'
+    show dirPlain d' (Session.handleRecord _ true s ⟨(protect P L cls ver (x.get d) 23 pt f).2, car⟩ d).traffic = _
+    rw [c1, dirPlain_push]
+    simp [metaOf13]
+
+/-- TLS 1.3 after the ServerHello: `Session` over ANY interleaving of the two sides' records (dummy ChangeCipherSpec,
+    protected handshake records of whole messages — each Finished switching that side's epoch —, application data)
+    exports, per direction, exactly that side's application plaintexts in order -/
+theorem run_merge13m (H : Crypto.Prims) (P : Prims) (L : SealLaws P) (kl : List Keylog.Key) (cls : CipherClass)
+    (h13 : cls.is13 = true) (macLen : Nat) (ver : Bytes) (hv : ver.length = 2) (M : List (Session.Rec × Bool)) :
+    ∀ (x : Snd) (s : Session.St Dec) (rem : Bool → List DirEv), Ready cls macLen x s →
+      (∀ d, Script13 (rem d)) → (∀ d, ∀ e ∈ rem d, EvOk1 cls macLen e) →
+      (∀ d, (M.filter fun q => q.2 == d).map (·.1.raw) = sendDir P L cls ver (x.get d) (rem d)) →
+      max x.c.seq x.s.seq + (cost (rem false) + cost (rem true)) ≤ seqLimit →
+      ∀ d, dirPlain d (Session.run (Pipeline.ops H P kl) true s M).traffic
+        = dirPlain d s.traffic ++ metaStream13 P L cls ver (x.get d) (rem d) := by
+  induction M with
+  | nil =>
+    intro x s rem _ _ _ hfil _ d
+    have := sendDir_eq_nil P L cls ver _ _ (hfil d).symm
+    simp [Session.run, this, metaStream13]
+  | cons q M' ih =>
+    intro x s rem hs hsc hok hfil hq d
+    obtain ⟨r, d0⟩ := q
+    have h0 := hfil d0
+    rw [filter_dir_cons_same, List.map_cons] at h0
+    cases hrem : rem d0 with
+    | nil => rw [hrem] at h0; cases h0
+    | cons e rest =>
+      rw [hrem, sendDir_cons] at h0
+      simp only [List.cons.injEq] at h0
+      obtain ⟨hraw, htail⟩ := h0
+      have hr : r = ⟨evRaw P L cls ver (x.get d0) e, r.carriers⟩ := by
+        have hraw' : r.raw = evRaw P L cls ver (x.get d0) e := hraw
+        rw [← hraw']
+      have hcost : cost [e] + cost rest + cost (rem (!d0)) ≤ cost (rem false) + cost (rem true) := by
+        have := cost_cons e rest
+        cases d0
+        · simp only [Bool.not_false, hrem] at *; omega
+        · simp only [Bool.not_true, hrem] at *; omega
+      obtain ⟨g1, g4, g5⟩ := step13m H P L kl cls h13 macLen ver hv x s hs d0 e r.carriers
+        (hsc d0 e (by rw [hrem]; simp)) (hok d0 e (by rw [hrem]; simp)) (by omega)
+      rw [← hr] at g1 g4
+      have hsc' : ∀ d', Script13 (upd rem d0 rest d') := by
+        intro d' e' he'
+        by_cases hd : d' = d0
+        · subst hd
+          simp only [upd, if_true] at he'
+          exact hsc d' e' (by rw [hrem]; simp [he'])
+        · simp only [upd, hd, if_false] at he'
+          exact hsc d' e' he'
+      have hok' : ∀ d', ∀ e' ∈ upd rem d0 rest d', EvOk1 cls macLen e' := by
+        intro d' e' he'
+        by_cases hd : d' = d0
+        · subst hd
+          simp only [upd, if_true] at he'
+          exact hok d' e' (by rw [hrem]; simp [he'])
+        · simp only [upd, hd, if_false] at he'
+          exact hok d' e' he'
+      have hfil' : ∀ d', (M'.filter fun q => q.2 == d').map (·.1.raw)
+          = sendDir P L cls ver ((x.set d0 (evNext P L cls ver (x.get d0) e)).get d') (upd rem d0 rest d') := by
+        intro d'
+        by_cases hd : d' = d0
+        · subst hd
+          rw [Lemmas.RecLayer.sget_set]
+          simpa [upd] using htail
+        · rw [sget_set_ne _ _ _ _ hd]
+          simp only [upd, hd, if_false]
+          rw [← hfil d', filter_dir_cons_other _ _ _ _ hd]
+      have hq' : max (x.set d0 (evNext P L cls ver (x.get d0) e)).c.seq (x.set d0 (evNext P L cls ver (x.get d0) e)).s.seq
+          + (cost (upd rem d0 rest false) + cost (upd rem d0 rest true)) ≤ seqLimit := by
+        have : cost (upd rem d0 rest false) + cost (upd rem d0 rest true) = cost rest + cost (rem (!d0)) := by
+          cases d0 <;> simp [upd] <;> omega
+        rw [this]; omega
+      have := ih _ _ (upd rem d0 rest) g1 hsc' hok' hfil' hq' d
+      simp only [Session.run, List.foldl_cons] at this ⊢
+      rw [this, g4 d]
+      by_cases hd : d = d0
+      · subst hd
+        simp only [upd, if_true, hrem, if_true, Lemmas.RecLayer.sget_set, metaStream13]
+        rw [List.append_assoc]
+      · rw [sget_set_ne _ _ _ _ hd]
+        simp [upd, hd]
+
+
 end TLX.Lemmas.Capstone2
